@@ -256,6 +256,14 @@ func (t *Tree) parseInnerExpr() (Expr, error) {
 			if err != nil {
 				return nil, err
 			}
+			switch keyExpr.(type) {
+			case *NullExpr, *BoolExpr:
+				// A bare word is the key itself, also when it spells a
+				// literal: {none: 1}.none is 1.
+				if nxt.tokenType == tokenName {
+					keyExpr = NewNameExpr(nxt.value, nxt.Pos)
+				}
+			}
 			_, err = t.expectValue(tokenPunctuation, delimHashKeyValue)
 			if err != nil {
 				return nil, err
